@@ -36,6 +36,13 @@ DoMesh(e) ==
      IN  EmitV(e, fails, {}, {"C09.consistent"}, {}, rej)
   /\ stk' = <<IF e.raised # "" THEN NoMesh ELSE e.mesh>>
 
+\* the premise of a step: the mesh it is applied to is a proper cell complex - Consistent, every cell has at
+\* least 3 vertices, no two mesh edges join the same pair of vertices.  (create_edges_new lists two two-point
+\* interfaces between the same junctions once, so generate_mesh cannot keep a doubled edge: C11's finding
+\* KF_ParallelEdges; what follows from a degenerate mesh is not judged here.)
+Proper(mm) == /\ \A c \in Ce(mm) : Len(mm.C[c]) >= 3
+              /\ Cardinality({{mm.E[e][1], mm.E[e][2]} : e \in Ed(mm)}) = mm.ne
+
 \* two contractible two-point interfaces of mm share an end
 HasChain(mm) ==
   LET PB == Paths(mm)
@@ -72,7 +79,7 @@ DoStep(e) ==
   /\ e.ev = "Step"
   /\ LET m      == IF e.depth + 1 <= Len(stk) THEN stk[e.depth + 1] ELSE NoMesh
          ok     == e.raised = ""
-         prevOK == m.nv >= 0 /\ Consistent(m) = {}
+         prevOK == m.nv >= 0 /\ Consistent(m) = {} /\ Proper(m)
          joins  == (e.op = "G" /\ e.rse /\ e.ne >= 2) \/ e.op = "J"
          chainK == ~ok /\ joins /\ prevOK /\ HasChain(m)
          \* the premise of a step is a Consistent mesh: an inconsistency is reported once, where it appears
